@@ -28,8 +28,9 @@ TARGETS = {"plain": (TARGET, {}), "dependent-first-decoratives": (TARGET_DF, {})
 OTHER_FN = "a = 0.5*a + fn(3)\nb = a + y\ny = 2\nx = 7\nMaxTime = 2"
 OTHER = "a = 0.5*a + 3\nb = a + y\ny = 2\nx = 7\nMaxTime = 2"
 OTHER_LONG = "a = 0.5*a + 3\nb = a + y\ny = 2\nx = 7\nMaxTime = 4"       # previous block with a longer / shorter horizon than the target block
+OTHER_IC = "x = 0.5*LX + 3\nd = x + 1\nLX = x(k-1)\nx(0) = 9.\nd(0) = 5.\nLX(0) = 4.\nMaxTime = 2"      # same names as the target, with initial conditions of its own
 OTHER_SHORT = "a = 0.5*a + 3\nb = a + y\ny = 2\nx = 7\nMaxTime = 1"
-OPS = ['other-model', 'other-solver', 'logs-on', 'logs-off', 'trace', 're-solve', 're-parse', 're-parse-longer-horizon', 're-parse-shorter-horizon', 're-parse-after-diagnosed-block', 'solver-between-parse-and-solve', 'target-first']
+OPS = ['other-model', 'other-solver', 'logs-on', 'logs-off', 'trace', 're-solve', 're-parse', 're-parse-longer-horizon', 're-parse-shorter-horizon', 're-parse-after-block-with-initial-conditions', 're-parse-after-diagnosed-block', 'solver-between-parse-and-solve', 'target-first']
 MID = "x = 0.25*LX + 9\nd = x - 1\nLX = x(k-1)\nG = 3\nMaxTime = 2"      # same variable names as the target blocks, other equations
 
 
@@ -116,9 +117,10 @@ def history_case(item):
                 es.TraceStep = 1
             elif op == 're-solve':
                 resolve = True
-            elif op in ('re-parse', 're-parse-longer-horizon', 're-parse-shorter-horizon'):
+            elif op in ('re-parse', 're-parse-longer-horizon', 're-parse-shorter-horizon', 're-parse-after-block-with-initial-conditions'):
                 # the solver object was used for another block before it is given the target block
-                es.ParseString({'re-parse': OTHER, 're-parse-longer-horizon': OTHER_LONG, 're-parse-shorter-horizon': OTHER_SHORT}[op])
+                es.ParseString({'re-parse': OTHER, 're-parse-longer-horizon': OTHER_LONG, 're-parse-shorter-horizon': OTHER_SHORT,
+                                're-parse-after-block-with-initial-conditions': OTHER_IC}[op])
                 es.SolveEquation()
             elif op == 're-parse-after-diagnosed-block':
                 # the earlier block was solved with step tracing and the steady-state search on; both are switched off again before the target block
@@ -219,7 +221,7 @@ import sys, os, tempfile, shutil
 from fractions import Fraction as F
 from sfc_models.equation_solver import EquationSolver
 from sfc_models.utils import Logger
-from vf.props.c17 import TARGETS, OTHER, OTHER_LONG, OTHER_SHORT, OTHER_FN, MID, build_other_model
+from vf.props.c17 import TARGETS, OTHER, OTHER_LONG, OTHER_SHORT, OTHER_IC, OTHER_FN, MID, build_other_model
 hist = %(hist)r
 TARGET, FUNCS = TARGETS[%(tname)r]
 vals = {k: float(F(v)) for k, v in %(vals)r.items()}
@@ -249,7 +251,7 @@ for op in hist:
         try: es.SolveEquation()
         except ValueError: pass
         es.TraceStep = None; es.ParameterSolveInitialSteadyState = False
-    elif op.startswith('re-parse'): es.ParseString({'re-parse': OTHER, 're-parse-longer-horizon': OTHER_LONG, 're-parse-shorter-horizon': OTHER_SHORT}[op]); es.SolveEquation()
+    elif op.startswith('re-parse'): es.ParseString({'re-parse': OTHER, 're-parse-longer-horizon': OTHER_LONG, 're-parse-shorter-horizon': OTHER_SHORT, 're-parse-after-block-with-initial-conditions': OTHER_IC}[op]); es.SolveEquation()
 try:
     es.ParseString(TARGET)
     if 'solver-between-parse-and-solve' in hist:
